@@ -34,10 +34,24 @@ def main():
             val = eval(call, ns)
             out["outcome"] = "true" if val is True or (val and val is not False) else "false"
             out["detail"] = repr(val)[:300]
-        except Exception as e:  # the harness let an exception escape = oracle violated
+        except Exception as e:  # the harness let an exception escape = oracle violated ...
             out["outcome"] = "exception"
             out["detail"] = "%s: %s" % (type(e).__name__, str(e)[:300])
             out["traceback"] = traceback.format_exc()[-1500:]
+            # ... unless the HARNESS ITSELF tripped over a moved/renamed internal of pedal (refactoring): an
+            # AttributeError / ImportError / NameError / TypeError raised in a frame of the harness or engine code
+            tb = e.__traceback__
+            last = None
+            while tb is not None:
+                last = tb
+                tb = tb.tb_next
+            where = os.path.abspath(last.tb_frame.f_code.co_filename) if last is not None else ""
+            root = os.path.dirname(os.path.dirname(os.path.abspath(__file__)))
+            if isinstance(e, (AttributeError, ImportError, NameError, TypeError)) and (
+                    where.startswith(os.path.join(root, "harness")) or where.startswith(os.path.join(root, "engine"))):
+                out["outcome"] = "harness_error"
+                out["detail"] = "harness tripped over pedal internals (%s) at %s:%s" % (
+                    out["detail"], os.path.basename(where), last.tb_lineno)
     except BaseException as e:  # noqa
         out["outcome"] = "error"
         out["detail"] = "%s: %s" % (type(e).__name__, str(e)[:300])
